@@ -61,9 +61,7 @@ def run(ctx):
     okf = False
     for x in rets:
         if norm(x.ast.value) == 'False':
-            g = [(norm(t), pol) for (t, pol, _g) in scfg.guards(x)
-                 if isinstance(t, ast.expr)]
-            okf = ('task_ex is None', True) in g
+            okf = U.guarded(scfg, x, 'task_ex is None', True)
     r1.check(okf, ctx.construct(ts, extra='loser returns False'),
              'Task.set_state does not return False when the CAS matched no '
              'row', ctx.loc(ts))
@@ -112,15 +110,12 @@ def run(ctx):
     for x in ccfg.nodes:
         if x.kind == 'stmt' and isinstance(x.ast, ast.Return) and \
                 norm(x.ast.value) == '-1':
-            g = [(norm(t), pol) for (t, pol, _g) in ccfg.guards(x)
-                 if isinstance(t, ast.expr)]
-            if ('a.unique_key < b.unique_key', True) in g:
+            if U.guarded(ccfg, x, 'a.unique_key < b.unique_key', True):
                 okc = True
     eq = any(x.kind == 'stmt' and isinstance(x.ast, ast.Return) and
              norm(x.ast.value) == '0' and
-             ('a.unique_key == b.unique_key', True) in
-             [(norm(t), pol) for (t, pol, _g) in ccfg.guards(x)
-              if isinstance(t, ast.expr)] for x in ccfg.nodes)
+             U.guarded(ccfg, x, 'a.unique_key == b.unique_key', True)
+             for x in ccfg.nodes)
     r2.check(okc and eq, ctx.construct(cmpf),
              'the comparator does not order waiting commands by unique_key',
              ctx.loc(cmpf))
@@ -232,11 +227,9 @@ def run(ctx):
     guarded = unguarded_new = 0
     for n in over:
         sn = cfg.stmt_node(n)
-        g = [(norm(t), pol) for (t, pol, _g) in cfg.guards(sn)
-             if isinstance(t, ast.expr)]
-        if ('r_ver > l_ver', True) in g or ('l_ver < r_ver', True) in g:
+        if U.guarded(cfg, sn, 'r_ver > l_ver', True):
             guarded += 1
-        elif ('k not in ctx_left', True) in g:
+        elif U.guarded(cfg, sn, 'k not in ctx_left', True):
             unguarded_new += 1
         else:
             r5.fail(ctx.construct(mc, n), 'left value overwritten without '
